@@ -1474,6 +1474,18 @@ def o_change_shg(ctx, case):
                         ra=float(src[0]), dec=float(src[1]), weight=(None if src[2] is None else float(src[2])))
                 elif op[0] == 'c':
                     o_ = int(op[1])
+                    cc_ = dict(case, groups=desc(o_, ver[o_]))
+                    if not _has_positive_row(cc_, mcs, _ref_table(cc_, mcs)[0]):
+                        # the content handed over has no signal candidate of positive weight (e.g. the moved source's band is
+                        # empty): outside the quantifier; the code refuses loudly (ValueError) and the generator is unusable
+                        # afterwards — the history ends here, like the other oracles treat "nothing to inject"
+                        SKIPS['change_shg:history-stopped-at-content-without-candidates'] += 1
+                        try:
+                            used.change_shg_mgr(objs[o_][0])
+                        except Exception:  # noqa
+                            pass
+                        ok_ident = False
+                        break
                     used.change_shg_mgr(objs[o_][0])
                     force = (o_, ver[o_])
                 v = float(used.mu2flux(2.0))
